@@ -1,70 +1,111 @@
 package main
 
-// Source-derived constants of the ping code, read from the Go source of $VERIF_REPO with go/ast on
-// every run and compared (kind "consts") with what the Coq model COMPUTES from its own functions
-// (Extract/D19.v consts_obs).  Everything is found by shape, not by position or by the names of
-// local variables, so reordering declarations, renaming locals or the constants themselves is silent;
-// changing a value is an alarm.
+// Source-derived constants of the ping code, read from the Go source of $VERIF_REPO on every run and
+// compared (kind "consts") with what the Coq model COMPUTES from its own functions (Extract/D19.v
+// consts_obs).  Values are folded by go/types (types.Info.Types[expr].Value), so named constants,
+// reordered operands and helper constants resolve; expressions are located by shape.  A component whose
+// shape is not found or whose value does not fold is UNRESOLVED: it is dropped from the case (stat
+// consts.unresolved.<name>) and never alarms; only a resolved value that differs from the model does.
 
 import (
 	"fmt"
 	"go/ast"
+	"go/constant"
+	"go/importer"
 	"go/parser"
 	"go/token"
+	"go/types"
 	"os"
 	"path/filepath"
 	"sort"
 	"strconv"
 	"strings"
-	"syscall"
 )
 
-func intLit(e ast.Expr, consts map[string]int64) (int64, bool) {
-	switch x := e.(type) {
-	case *ast.BasicLit:
-		if x.Kind == token.INT {
-			v, err := strconv.ParseInt(x.Value, 0, 64)
-			return v, err == nil
-		}
-	case *ast.Ident:
-		v, ok := consts[x.Name]
-		return v, ok
-	case *ast.ParenExpr:
-		return intLit(x.X, consts)
-	case *ast.SelectorExpr: // syscall.IPPROTO_ICMP, syscall.IPPROTO_ICMPV6
-		if id, ok := x.X.(*ast.Ident); ok && id.Name == "syscall" {
-			switch x.Sel.Name {
-			case "IPPROTO_ICMP":
-				return syscall.IPPROTO_ICMP, true
-			case "IPPROTO_ICMPV6":
-				return syscall.IPPROTO_ICMPV6, true
-			}
-		}
-	}
-	return 0, false
+type srcInfo struct {
+	fset  *token.FileSet
+	files map[string]*ast.File
+	info  *types.Info
 }
 
-// N in `time.Second * N` / `N * time.Second`
-func secondsOf(e ast.Expr, consts map[string]int64) (int64, bool) {
-	b, ok := e.(*ast.BinaryExpr)
-	if !ok || b.Op != token.MUL {
+func loadSource() *srcInfo {
+	repo := os.Getenv("VERIF_REPO")
+	if repo == "" {
+		repo = "/repo"
+	}
+	si := &srcInfo{fset: token.NewFileSet(), files: map[string]*ast.File{}}
+	names, _ := filepath.Glob(filepath.Join(repo, "*.go"))
+	var all []*ast.File
+	for _, n := range names {
+		if strings.HasSuffix(n, "_test.go") {
+			continue
+		}
+		f, err := parser.ParseFile(si.fset, n, nil, 0)
+		if err != nil || f.Name.Name != "packet" {
+			continue
+		}
+		si.files[filepath.Base(n)] = f
+		all = append(all, f)
+	}
+	si.info = &types.Info{Types: map[ast.Expr]types.TypeAndValue{}}
+	conf := types.Config{Importer: importer.ForCompiler(si.fset, "source", nil), Error: func(error) {}}
+	conf.Check("packet", si.fset, all, si.info) // errors (third-party imports, build tags) are irrelevant: constants still fold
+	return si
+}
+
+func (si *srcInfo) val(e ast.Expr) (int64, bool) {
+	tv, ok := si.info.Types[e]
+	if !ok || tv.Value == nil {
 		return 0, false
 	}
-	isSec := func(x ast.Expr) bool {
-		s, ok := x.(*ast.SelectorExpr)
-		if !ok {
-			return false
+	v := constant.ToInt(tv.Value)
+	if v.Kind() != constant.Int {
+		return 0, false
+	}
+	return constant.Int64Val(v)
+}
+
+func isLenOf(e ast.Expr) (ast.Expr, bool) {
+	c, ok := e.(*ast.CallExpr)
+	if !ok || len(c.Args) != 1 {
+		return nil, false
+	}
+	f, ok := c.Fun.(*ast.Ident)
+	if !ok || f.Name != "len" {
+		return nil, false
+	}
+	return c.Args[0], true
+}
+
+// lower bound c of `len(X) >= c`, `len(X) > c-1`, `c <= len(X)`, `!(len(X) < c)` style comparisons
+func (si *srcInfo) lenLowerBound(b *ast.BinaryExpr) (ast.Expr, int64, bool) {
+	x, y, op := b.X, b.Y, b.Op
+	if _, ok := isLenOf(y); ok { // constant on the left: mirror
+		x, y = y, x
+		switch op {
+		case token.LEQ:
+			op = token.GEQ
+		case token.LSS:
+			op = token.GTR
+		default:
+			return nil, 0, false
 		}
-		id, ok := s.X.(*ast.Ident)
-		return ok && id.Name == "time" && s.Sel.Name == "Second"
 	}
-	if isSec(b.X) {
-		return intLit(b.Y, consts)
+	arg, ok := isLenOf(x)
+	if !ok {
+		return nil, 0, false
 	}
-	if isSec(b.Y) {
-		return intLit(b.X, consts)
+	c, ok := si.val(y)
+	if !ok {
+		return nil, 0, false
 	}
-	return 0, false
+	switch op {
+	case token.GEQ:
+		return arg, c, true
+	case token.GTR:
+		return arg, c + 1, true
+	}
+	return nil, 0, false
 }
 
 func mentions(n ast.Node, name string) bool {
@@ -78,52 +119,56 @@ func mentions(n ast.Node, name string) bool {
 	return found
 }
 
-func sourceConsts() string {
-	repo := os.Getenv("VERIF_REPO")
-	if repo == "" {
-		repo = "/repo"
+// sourceConsts returns the resolved components (name -> value text) and the names left unresolved.
+func sourceConsts() (map[string]string, []string) {
+	all := []string{"notify", "request", "id0", "idtype", "fullgt", "tmo", "minlen"}
+	res := map[string]string{}
+	si := loadSource()
+	icmp, frame := si.files["layer_icmp.go"], si.files["layer_frame.go"]
+	if icmp != nil {
+		si.fromICMP(icmp, res)
 	}
-	fset := token.NewFileSet()
-	parse := func(name string) *ast.File {
-		f, err := parser.ParseFile(fset, filepath.Join(repo, name), nil, 0)
-		if err != nil {
-			return nil
-		}
-		return f
+	if frame != nil {
+		si.fromFrame(frame, res)
 	}
-	icmp, frame := parse("layer_icmp.go"), parse("layer_frame.go")
-	if icmp == nil || frame == nil {
-		return "source-unreadable"
-	}
-	// integer constants of layer_icmp.go
-	consts := map[string]int64{}
-	for _, d := range icmp.Decls {
-		g, ok := d.(*ast.GenDecl)
-		if !ok || g.Tok != token.CONST {
-			continue
-		}
-		for _, sp := range g.Specs {
-			vs := sp.(*ast.ValueSpec)
-			for i, n := range vs.Names {
-				if i < len(vs.Values) {
-					if v, ok := intLit(vs.Values[i], consts); ok {
-						consts[n.Name] = v
-					}
+	if a, ok1 := res["_icmpmin"]; ok1 {
+		b, ok2 := res["_echomin"]
+		c, ok3 := res["_payloadmin"]
+		if ok2 && ok3 {
+			m := 0
+			for _, s := range []string{a, b, c} {
+				if v, _ := strconv.Atoi(s); v > m {
+					m = v
 				}
 			}
+			res["minlen"] = strconv.Itoa(m)
 		}
 	}
-	// the waiter table: a package variable whose struct type has a map field keyed by an integer type
-	// and a counter field of that same type
-	mapField, idField, idType, id0 := "", "", "?", "?"
+	var un []string
+	for _, n := range all {
+		if _, ok := res[n]; !ok {
+			un = append(un, n)
+		}
+	}
+	for k := range res {
+		if strings.HasPrefix(k, "_") {
+			delete(res, k)
+		}
+	}
+	return res, un
+}
+
+func (si *srcInfo) fromICMP(icmp *ast.File, res map[string]string) {
+	// the waiter table: a package variable whose struct type has a map field keyed by an integer type and
+	// a counter field of that same type
+	mapField, idField := "", ""
 	for _, d := range icmp.Decls {
 		g, ok := d.(*ast.GenDecl)
 		if !ok || g.Tok != token.VAR {
 			continue
 		}
 		for _, sp := range g.Specs {
-			vs := sp.(*ast.ValueSpec)
-			for _, val := range vs.Values {
+			for _, val := range sp.(*ast.ValueSpec).Values {
 				cl, ok := val.(*ast.CompositeLit)
 				if !ok {
 					continue
@@ -145,14 +190,15 @@ func sourceConsts() string {
 				}
 				for _, f := range st.Fields.List {
 					if t, ok := f.Type.(*ast.Ident); ok && t.Name == keyType && len(f.Names) == 1 {
-						idField, idType = f.Names[0].Name, t.Name
+						idField = f.Names[0].Name
+						res["idtype"] = t.Name
 					}
 				}
 				for _, el := range cl.Elts {
 					if kv, ok := el.(*ast.KeyValueExpr); ok {
 						if k, ok := kv.Key.(*ast.Ident); ok && k.Name == idField {
-							if v, ok := intLit(kv.Value, consts); ok {
-								id0 = strconv.FormatInt(v, 10)
+							if v, ok := si.val(kv.Value); ok {
+								res["id0"] = strconv.FormatInt(v, 10)
 							}
 						}
 					}
@@ -160,15 +206,9 @@ func sourceConsts() string {
 			}
 		}
 	}
-	// len(<table>.<map>) > LIT: the refusal bound of the allocator
 	full := map[string]bool{}
-	// timeout normalisation: in every function with a time.Duration parameter d, the if statement whose
-	// condition compares d with time.Second*N and whose body assigns time.Second*M to d
 	tmo := map[string]bool{}
-	// EncodeICMPEcho(_, TYPE, ...) calls: the request types sent
-	reqs := map[int64]bool{}
-	// IsValid methods: len(p) >= LIT
-	minLens := map[string]int64{}
+	reqs := map[int]bool{}
 	for _, d := range icmp.Decls {
 		fd, ok := d.(*ast.FuncDecl)
 		if !ok || fd.Body == nil {
@@ -183,35 +223,38 @@ func sourceConsts() string {
 		ast.Inspect(fd.Body, func(n ast.Node) bool {
 			switch x := n.(type) {
 			case *ast.BinaryExpr:
-				if x.Op == token.GTR {
-					if c, ok := x.X.(*ast.CallExpr); ok && len(c.Args) == 1 {
-						if f, ok := c.Fun.(*ast.Ident); ok && f.Name == "len" {
-							if s, ok := c.Args[0].(*ast.SelectorExpr); ok && s.Sel.Name == mapField {
-								if v, ok := intLit(x.Y, consts); ok {
-									full[strconv.FormatInt(v, 10)] = true
-								}
-							}
-						}
+				if arg, c, ok := si.lenLowerBound(x); ok {
+					if s, ok := arg.(*ast.SelectorExpr); ok && mapField != "" && s.Sel.Name == mapField && c > 1 {
+						full[strconv.FormatInt(c-1, 10)] = true // len(table) > c-1: refusal
 					}
 				}
-				if x.Op == token.GEQ && fd.Name.Name == "IsValid" && fd.Recv != nil {
-					if c, ok := x.X.(*ast.CallExpr); ok {
-						if f, ok := c.Fun.(*ast.Ident); ok && f.Name == "len" {
-							if v, ok := intLit(x.Y, consts); ok {
-								if rt, ok := fd.Recv.List[0].Type.(*ast.Ident); ok {
-									minLens[rt.Name] = v
-								}
+				// IsValid of the two views: the single length comparison, in any of its spellings
+				// (len(p) >= c, n < c after n := len(p), ...)
+				if fd.Name.Name == "IsValid" && fd.Recv != nil {
+					if rt, ok := fd.Recv.List[0].Type.(*ast.Ident); ok && (rt.Name == "ICMP" || rt.Name == "ICMPEcho") {
+						if c, ok := si.val(x.Y); ok {
+							bound := int64(-1)
+							switch x.Op {
+							case token.LSS, token.GEQ:
+								bound = c
+							case token.LEQ, token.GTR:
+								bound = c + 1
+							}
+							if bound >= 0 {
+								res[map[string]string{"ICMP": "_icmpmin", "ICMPEcho": "_echomin"}[rt.Name]] = strconv.FormatInt(bound, 10)
 							}
 						}
 					}
 				}
 			case *ast.IfStmt:
 				if dur != "" && mentions(x.Cond, dur) {
-					var maxS, defS int64 = -1, -1
+					maxNs, defNs := int64(-1), int64(-1)
 					ast.Inspect(x.Cond, func(m ast.Node) bool {
-						if e, ok := m.(ast.Expr); ok {
-							if v, ok := secondsOf(e, consts); ok {
-								maxS = v
+						if b, ok := m.(*ast.BinaryExpr); ok && (b.Op == token.GTR || b.Op == token.GEQ || b.Op == token.LSS || b.Op == token.LEQ) {
+							for _, side := range []ast.Expr{b.X, b.Y} {
+								if v, ok := si.val(side); ok && v > 0 {
+									maxNs = v
+								}
 							}
 						}
 						return true
@@ -219,28 +262,49 @@ func sourceConsts() string {
 					for _, st := range x.Body.List {
 						if as, ok := st.(*ast.AssignStmt); ok && len(as.Lhs) == 1 && len(as.Rhs) == 1 {
 							if id, ok := as.Lhs[0].(*ast.Ident); ok && id.Name == dur {
-								if v, ok := secondsOf(as.Rhs[0], consts); ok {
-									defS = v
+								if v, ok := si.val(as.Rhs[0]); ok {
+									defNs = v
 								}
 							}
 						}
 					}
-					if maxS >= 0 && defS >= 0 {
-						tmo[fmt.Sprintf("%d/%d", maxS, defS)] = true
+					if maxNs > 0 && defNs > 0 && maxNs%1000000000 == 0 && defNs%1000000000 == 0 {
+						tmo[fmt.Sprintf("%d/%d", maxNs/1000000000, defNs/1000000000)] = true
 					}
 				}
 			case *ast.CallExpr:
 				if f, ok := x.Fun.(*ast.Ident); ok && f.Name == "EncodeICMPEcho" && len(x.Args) >= 2 && fd.Name.Name != "EncodeICMPEcho" {
-					if v, ok := intLit(x.Args[1], consts); ok {
-						reqs[v] = true
+					if v, ok := si.val(x.Args[1]); ok {
+						reqs[int(v)] = true
 					}
 				}
 			}
 			return true
 		})
 	}
-	// Parse: inside the case clause of protocol P, `<x>.Type() == C` guards echoNotify; and the
-	// payload-length guard `len(...Payload()) >= LIT`
+	if len(full) > 0 {
+		res["fullgt"] = joinKeys(full)
+	}
+	if len(tmo) > 0 {
+		res["tmo"] = joinKeys(tmo)
+	}
+	if len(reqs) > 0 {
+		var l []int
+		for v := range reqs {
+			l = append(l, v)
+		}
+		sort.Ints(l)
+		var s []string
+		for _, v := range l {
+			s = append(s, strconv.Itoa(v))
+		}
+		res["request"] = strings.Join(s, ",")
+	}
+}
+
+// Parse: inside the case clause of a constant protocol P that (somewhere) calls echoNotify, `<x>.Type() == C`
+// comparisons and the payload-length guard `len(<y>.Payload()) >= c`, at any nesting depth
+func (si *srcInfo) fromFrame(frame *ast.File, res map[string]string) {
 	notify := map[string]bool{}
 	payloadMin := int64(-1)
 	ast.Inspect(frame, func(n ast.Node) bool {
@@ -248,7 +312,7 @@ func sourceConsts() string {
 		if !ok || len(cc.List) != 1 {
 			return true
 		}
-		proto, ok := intLit(cc.List[0], consts)
+		proto, ok := si.val(cc.List[0])
 		if !ok {
 			return true
 		}
@@ -267,34 +331,26 @@ func sourceConsts() string {
 			return true
 		}
 		for _, st := range cc.Body {
-			ifs, ok := st.(*ast.IfStmt)
-			if !ok {
-				continue
-			}
-			ast.Inspect(ifs.Cond, func(m ast.Node) bool {
+			ast.Inspect(st, func(m ast.Node) bool {
 				b, ok := m.(*ast.BinaryExpr)
 				if !ok {
 					return true
 				}
 				if b.Op == token.EQL {
-					if c, ok := b.X.(*ast.CallExpr); ok {
-						if s, ok := c.Fun.(*ast.SelectorExpr); ok && s.Sel.Name == "Type" {
-							if v, ok := intLit(b.Y, consts); ok {
-								notify[fmt.Sprintf("%d:%d", proto, v)] = true
+					for _, pair := range [][2]ast.Expr{{b.X, b.Y}, {b.Y, b.X}} {
+						if c, ok := pair[0].(*ast.CallExpr); ok {
+							if s, ok := c.Fun.(*ast.SelectorExpr); ok && s.Sel.Name == "Type" {
+								if v, ok := si.val(pair[1]); ok {
+									notify[fmt.Sprintf("%d:%d", proto, v)] = true
+								}
 							}
 						}
 					}
 				}
-				if b.Op == token.GEQ {
-					if c, ok := b.X.(*ast.CallExpr); ok {
-						if f, ok := c.Fun.(*ast.Ident); ok && f.Name == "len" && len(c.Args) == 1 {
-							if inner, ok := c.Args[0].(*ast.CallExpr); ok {
-								if s, ok := inner.Fun.(*ast.SelectorExpr); ok && s.Sel.Name == "Payload" {
-									if v, ok := intLit(b.Y, consts); ok && v > payloadMin {
-										payloadMin = v
-									}
-								}
-							}
+				if arg, c, ok := si.lenLowerBound(b); ok {
+					if inner, ok := arg.(*ast.CallExpr); ok {
+						if s, ok := inner.Fun.(*ast.SelectorExpr); ok && s.Sel.Name == "Payload" && c > payloadMin {
+							payloadMin = c
 						}
 					}
 				}
@@ -303,40 +359,42 @@ func sourceConsts() string {
 		}
 		return true
 	})
-	keys := func(m map[string]bool) string {
-		var l []string
-		for k := range m {
-			l = append(l, k)
-		}
-		sort.Slice(l, func(i, j int) bool {
-			a, _ := strconv.Atoi(strings.SplitN(l[i], ":", 2)[0])
-			b, _ := strconv.Atoi(strings.SplitN(l[j], ":", 2)[0])
-			if a != b {
-				return a < b
-			}
-			return l[i] < l[j]
-		})
-		return strings.Join(l, ",")
+	if len(notify) > 0 {
+		res["notify"] = joinKeys(notify)
 	}
-	var rq []string
-	{
-		var l []int
-		for v := range reqs {
-			l = append(l, int(v))
+	if payloadMin >= 0 {
+		res["_payloadmin"] = strconv.FormatInt(payloadMin, 10)
+	}
+}
+
+func joinKeys(m map[string]bool) string {
+	var l []string
+	for k := range m {
+		l = append(l, k)
+	}
+	sort.Slice(l, func(i, j int) bool {
+		a, _ := strconv.Atoi(strings.SplitN(l[i], ":", 2)[0])
+		b, _ := strconv.Atoi(strings.SplitN(l[j], ":", 2)[0])
+		if a != b {
+			return a < b
 		}
-		sort.Ints(l)
-		for _, v := range l {
-			rq = append(rq, strconv.Itoa(v))
+		return l[i] < l[j]
+	})
+	return strings.Join(l, ",")
+}
+
+// constsCase: the case argument (resolved component names, in fixed order) and the observation
+func constsCase() (arg string, obs string, unresolved []string) {
+	res, un := sourceConsts()
+	var names, parts []string
+	for _, n := range []string{"notify", "request", "id0", "idtype", "fullgt", "tmo", "minlen"} {
+		if v, ok := res[n]; ok {
+			names = append(names, n)
+			parts = append(parts, n+"="+v)
 		}
 	}
-	minlen := payloadMin
-	for _, t := range []string{"ICMP", "ICMPEcho"} {
-		if v, ok := minLens[t]; !ok {
-			minlen = -1
-		} else if v > minlen && minlen >= 0 {
-			minlen = v
-		}
+	if len(names) == 0 {
+		return "-", "", un
 	}
-	return fmt.Sprintf("notify=%s;request=%s;id0=%s;idtype=%s;fullgt=%s;tmo=%s;minlen=%d",
-		keys(notify), strings.Join(rq, ","), id0, idType, keys(full), keys(tmo), minlen)
+	return strings.Join(names, ","), strings.Join(parts, ";"), un
 }
